@@ -23,6 +23,9 @@ pub type AsciiString = alloc::string::String;
 #[cfg(all(not(feature = "std"), not(feature = "alloc")))]
 pub type AsciiString = heapless::String<20>;
 
+#[cfg(any(feature = "std", feature = "alloc"))]
+pub type ByteVec = alloc::vec::Vec<u8>;
+
 /// Replaces the private `parse_6bit_ascii` in harnesses whose subject is *not* the text:
 /// same end-of-input rule and the same number of bits consumed, empty string returned.
 pub fn skip_text_stub(
@@ -92,17 +95,32 @@ pub fn raw_text_stub(
     if k > 20 {
         return Err(nom::Err::Failure(nom::error::Error::new(input, ErrorKind::TooLarge)));
     }
-    let mut s = AsciiString::new();
-    let mut i = 0;
-    while i < k {
-        let v = crate::spec::bits(input.0, input.1 + 6 * i, 6) as u8;
-        let c = (0x21 + v) as char;
-        #[cfg(any(feature = "std", feature = "alloc"))]
-        s.push(c);
-        #[cfg(all(not(feature = "std"), not(feature = "alloc")))]
-        let _ = s.push(c);
-        i += 1;
-    }
+    // (std / alloc: bytes pushed into a pre-sized Vec<u8> and converted once - String::push of a symbolic char makes CBMC
+    //  explore the UTF-8 width branches and the growth path per character: 50 GB; this form: a few GB)
+    #[cfg(any(feature = "std", feature = "alloc"))]
+    let s = {
+        let mut v: crate::stubs::ByteVec = crate::stubs::ByteVec::with_capacity(k);
+        let mut i = 0;
+        while i < k {
+            v.push(0x21 + crate::spec::bits(input.0, input.1 + 6 * i, 6) as u8);
+            i += 1;
+        }
+        // every byte is in 0x21..=0x60: valid UTF-8
+        unsafe { AsciiString::from_utf8_unchecked(v) }
+    };
+    #[cfg(all(not(feature = "std"), not(feature = "alloc")))]
+    let s = {
+        let mut buf = [0u8; 20];
+        let mut i = 0;
+        while i < k {
+            buf[i] = 0x21 + crate::spec::bits(input.0, input.1 + 6 * i, 6) as u8;
+            i += 1;
+        }
+        let mut s = AsciiString::new();
+        // every byte is in 0x21..=0x60: valid UTF-8; k <= 20 was checked above
+        let _ = s.push_str(unsafe { core::str::from_utf8_unchecked(&buf[..k]) });
+        s
+    };
     let pos = input.1 + nbits;
     Ok(((&input.0[pos / 8..], pos % 8), s))
 }
